@@ -94,9 +94,10 @@ class SdkDriver:
         elif k == "loop":
             n, form, body = s[1], s[2], s[3]
             start, step = (s[4], s[5]) if len(s) > 4 else (0, 1)
+            lreg = s[6] if len(s) > 6 else None
             stop = start + n * step
             if form == "ctx":
-                with conn.loop(stop, start, step) as i:
+                with conn.loop(stop, start, step, loop_register=lreg) as i:
                     self.loops.append({"i": i, "elt": None})
                     try:
                         self.run(body)
@@ -109,7 +110,7 @@ class SdkDriver:
                         self.run(body)
                     finally:
                         self.loops.pop()
-                conn.loop_body(fn, stop=stop, start=start, step=step)
+                conn.loop_body(fn, stop=stop, start=start, step=step, loop_register=lreg)
         elif k == "foreach":
             with self.arrays[s[1]].foreach() as v:
                 self.loops.append({"i": None, "elt": v})
@@ -142,9 +143,7 @@ class SdkDriver:
             target, other, mod = s[1], s[2], s[3]
             t = self.cvalue(target)
             o = self.cvalue(other)
-            if isinstance(o, RegFuture):
-                o = o.reg          # the API takes a register for register operands
-            t.add(o, mod=mod)
+            t.add(o, mod=mod)     # a register future is passed as it is (add() accepts any BaseFuture)
         elif k == "flush":
             conn.flush()
         else:
